@@ -236,6 +236,7 @@ inductive ReaderError where
   | invalidIndex      -- "invalid matrix index: {i}"
   | profileCount      -- "amount of fleet profiles does not match matrix profiles"
   | unknownName       -- only after fixes/S28.patch: "matrix profile '..' is not defined in fleet profiles"
+  | mixedKnownNames   -- only after fixes/S28-alt.patch: "some matrix profiles are not defined in fleet profiles"
   | build (e : BuildError)
 deriving Repr, DecidableEq
 
@@ -272,13 +273,27 @@ def namesKnown (profiles : List String) (ms : List ApiMatrix) : Bool :=
     | none => true
     | some n => profiles.contains n)
 
-/-- `create_transport_costs` (without a custom location: `create_matrix_transport_cost`).
-    `strict = false` is the code as it stands: a matrix whose name is not a fleet profile is mapped by its list
-    position (S28). `strict = true` is the code after `fixes/S28.patch`: such a name is an error. -/
-def createTransportCosts (strict : Bool) (profiles : List String) (ms : List ApiMatrix) : Except ReaderError Provider :=
+/-- which `create_transport_costs` is modelled: the code as it stands (`positional`: a matrix whose name is not a
+    fleet profile is mapped by its list position, S28), the code after `fixes/S28.patch` (`strict`: such a name is an
+    error), or after `fixes/S28-alt.patch` (`noMix`: fleet profile names and other names must not be mixed) -/
+inductive ReaderMode where
+  | positional
+  | strict
+  | noMix
+deriving Repr, DecidableEq
+
+/-- number of matrices whose name is a fleet profile -/
+def knownCount (profiles : List String) (ms : List ApiMatrix) : Nat :=
+  (ms.filter (fun m => match m.profile with
+    | some n => profiles.contains n
+    | none => false)).length
+
+/-- `create_transport_costs` (without a custom location: `create_matrix_transport_cost`) -/
+def createTransportCosts (mode : ReaderMode) (profiles : List String) (ms : List ApiMatrix) :
+    Except ReaderError Provider :=
   if !ms.all (fun m => m.profile.isSome) && !ms.all (fun m => m.profile.isNone) then .error .mixedNames
   else if ms.any (fun m => m.profile.isNone) && ms.any (fun m => m.timestamp.isSome) then .error .timedUnnamed
-  else if strict && !namesKnown profiles ms then .error .unknownName
+  else if mode == .strict && !namesKnown profiles ms then .error .unknownName
   else
     let np := (profileIndexMap profiles []).length
     if np > ms.length then .error .notEnough
@@ -287,13 +302,15 @@ def createTransportCosts (strict : Bool) (profiles : List String) (ms : List Api
       | none => .error .invalidIndex
       | some data =>
         if np != distinctCount (data.map (·.index)) then .error .profileCount
+        else if mode == .noMix && knownCount profiles ms != 0 && knownCount profiles ms != ms.length then
+          .error .mixedKnownNames
         else
           match build data with
           | .error e => .error (.build e)
           | .ok p => .ok p
 
-/-- which variant of the reader `/repo` currently has (used by the driver only; the theorems cover both) -/
-def readerStrict : Bool := false
+/-- which variant of the reader `/repo` currently has (used by the driver only; the theorems cover all three) -/
+def readerMode : ReaderMode := .positional
 
 /-- a vehicle type as far as routing is concerned: `profile.matrix`, `profile.scale` -/
 structure ApiVehicle where
@@ -318,7 +335,10 @@ def validateRouting (profiles : List String) (vehicles : List ApiVehicle) (maxIn
   (if ms.isEmpty then ["E1503"] else []) ++
   (match ms with
    | [] => []
-   | m :: _ => if maxIndex + 1 == sqrtRound m.distances.length then [] else ["E1504"]) ++
+   | m :: _ =>
+     let size := sqrtRound m.distances.length
+     -- every matrix must hold exactly size * size distances (checked on the API matrix, before error codes apply)
+     if maxIndex + 1 == size && ms.all (fun x => x.distances.length == size * size) then [] else ["E1504"]) ++
   (if vehicles.any (fun v => !profiles.contains v.matrix) then ["E1505"] else [])
 
 /-! ## scientific formats: `CoordIndex` + `SingleDataTransportCost` -/
@@ -399,19 +419,26 @@ def specAwareDist (ms : List MatrixData) (n frm to : Nat) (t : Rat) : Option Rat
     | some l, _ => (entryDist l n frm to).map (fun v => (v : Rat))
     | none, none => none
 
-/-- SPEC of a query against a consistent set `ms` of `n × n` matrices for a vehicle with profile index `p`:
-    durations times the scale, distances unscaled -/
-def specDuration (ms : List MatrixData) (n : Nat) (p : Profile) (frm to : Nat) (t : Rat) : Option Rat :=
-  match supplied ms p.index with
+/-- SPEC of a query against the matrices `g` supplied for one profile (`n × n`, either a single untimed matrix or
+    several timed ones): durations times the scale, distances unscaled -/
+def specGroupDuration (g : List MatrixData) (n : Nat) (scale : Rat) (frm to : Nat) (t : Rat) : Option Rat :=
+  match g with
   | [] => none
-  | [m] => if m.timestamp.isNone then (entryDur m n frm to).map (fun v => (v : Rat) * p.scale) else none
-  | g => if g.all (fun m => m.timestamp.isSome) then (specAwareDur g n frm to t).map (· * p.scale) else none
+  | [m] => if m.timestamp.isNone then (entryDur m n frm to).map (fun v => (v : Rat) * scale) else none
+  | g => if g.all (fun m => m.timestamp.isSome) then (specAwareDur g n frm to t).map (· * scale) else none
 
-def specDistance (ms : List MatrixData) (n : Nat) (p : Profile) (frm to : Nat) (t : Rat) : Option Rat :=
-  match supplied ms p.index with
+def specGroupDistance (g : List MatrixData) (n : Nat) (frm to : Nat) (t : Rat) : Option Rat :=
+  match g with
   | [] => none
   | [m] => if m.timestamp.isNone then (entryDist m n frm to).map (fun v => (v : Rat)) else none
   | g => if g.all (fun m => m.timestamp.isSome) then specAwareDist g n frm to t else none
+
+/-- SPEC of a query against a set `ms` for a vehicle with profile `p` -/
+def specDuration (ms : List MatrixData) (n : Nat) (p : Profile) (frm to : Nat) (t : Rat) : Option Rat :=
+  specGroupDuration (supplied ms p.index) n p.scale frm to t
+
+def specDistance (ms : List MatrixData) (n : Nat) (p : Profile) (frm to : Nat) (t : Rat) : Option Rat :=
+  specGroupDistance (supplied ms p.index) n frm to t
 
 /-- `xs` has no two equal elements -/
 def allDistinct : List Nat → Bool
@@ -439,22 +466,26 @@ def unreachableApplied (m : ApiMatrix) : List Int × List Int :=
     ((List.range codes.length).map (fun i => if codes.getD i 0 > 0 then -1 else m.travelTimes.getD i 0),
      (List.range codes.length).map (fun i => if codes.getD i 0 > 0 then -1 else m.distances.getD i 0))
 
+/-- a matrix of the API as routing data for profile index `idx` -/
+def asSupplied (idx : Nat) (m : ApiMatrix) : MatrixData :=
+  ⟨idx, m.timestamp, (unreachableApplied m).1, (unreachableApplied m).2⟩
+
 def namedFor (profiles : List String) (ms : List ApiMatrix) (name : String) : List MatrixData :=
+  let idx := (profileIndex profiles name).getD 0
   if ms.all (fun m => m.profile.isNone) then
     match profileIndex profiles name with
-    | some i => (ms[i]?).toList.map (fun m => ⟨0, m.timestamp, (unreachableApplied m).1, (unreachableApplied m).2⟩)
+    | some i => (ms[i]?).toList.map (asSupplied idx)
     | none => []
   else
-    (ms.filter (fun m => m.profile == some name)).map
-      (fun m => ⟨0, m.timestamp, (unreachableApplied m).1, (unreachableApplied m).2⟩)
+    (ms.filter (fun m => m.profile == some name)).map (asSupplied idx)
 
 /-- SPEC of a query through `read_pragmatic` for a vehicle routed on `v.matrix` -/
 def specReaderDuration (profiles : List String) (ms : List ApiMatrix) (n : Nat) (v : ApiVehicle)
     (frm to : Nat) (t : Rat) : Option Rat :=
-  specDuration (namedFor profiles ms v.matrix) n ⟨0, v.scale.getD 1⟩ frm to t
+  specGroupDuration (namedFor profiles ms v.matrix) n (v.scale.getD 1) frm to t
 
 def specReaderDistance (profiles : List String) (ms : List ApiMatrix) (n : Nat) (v : ApiVehicle)
     (frm to : Nat) (t : Rat) : Option Rat :=
-  specDistance (namedFor profiles ms v.matrix) n ⟨0, v.scale.getD 1⟩ frm to t
+  specGroupDistance (namedFor profiles ms v.matrix) n frm to t
 
 end C16
